@@ -17,6 +17,9 @@ import (
 	"verif/lib/ymodel"
 )
 
+// MaxChain bounds the long-chain template (checks that run every text many times lower it).
+var MaxChain = 2200
+
 type File struct {
 	Name string `json:"name"`
 	Text string `json:"text"`
@@ -246,7 +249,7 @@ func Template(t *rapid.T) Case {
 		}
 		return fmt.Sprintf(where, s)
 	}
-	switch rapid.SampledFrom([]string{"typedef-cycle", "uses-cycle", "identity-cycle", "include-cycle", "import-cycle", "cross-module-typedef-cycle", "cross-module-uses-cycle", "absent", "lone-submodule", "bad-augment", "bad-deviation", "duplicates", "numbers", "leafref-union-cycle", "choice-case-oddities", "fan-in"}).Draw(t, "template") {
+	switch rapid.SampledFrom([]string{"typedef-cycle", "uses-cycle", "identity-cycle", "include-cycle", "import-cycle", "cross-module-typedef-cycle", "cross-module-uses-cycle", "absent", "lone-submodule", "bad-augment", "bad-deviation", "duplicates", "numbers", "leafref-union-cycle", "choice-case-oddities", "fan-in", "header-mix", "long-chain", "enum-unions"}).Draw(t, "template") {
 	case "typedef-cycle":
 		var b strings.Builder
 		for i := 0; i < n; i++ {
@@ -409,6 +412,89 @@ func Template(t *rapid.T) Case {
 		c.Files = append(c.Files, mod("m", fmt.Sprintf("leaf a { type decimal64 { fraction-digits %s; range %s; } } leaf b { type enumeration { enum x { value %s; } enum y; } } leaf c { type bits { bit x { position %s; } bit y; } } leaf-list d { type string { length %s; } min-elements %s; max-elements %s; } list e { key k; leaf k { type string; } min-elements %s; max-elements %s; } leaf f { type uint64 { range \"%s..%s | %s\"; } } leaf g { type int8 { range %s; } default %s; }", q, q, q, q, q, q, q, q, q, v, v, v, q, q)))
 	case "leafref-union-cycle":
 		c.Files = append(c.Files, mod("m", "leaf a { type leafref { path \"../b\"; } } leaf b { type leafref { path \"../a\"; } } leaf c { type leafref { path \"\"; } } leaf d { type leafref; } typedef u { type union; } leaf e { type u; } leaf f { type union { type union { type union { type f; } } } } leaf g { type identityref; } leaf h { type instance-identifier { require-instance maybe; } } leaf i { type enumeration; } leaf j { type bits; } leaf k { type decimal64; }"))
+	case "long-chain":
+		// one long chain of definitions, each built on the one before (the work must not grow with the cube
+		// of its length); the text stays below the 64 KiB bound
+		n := 100 * rapid.IntRange(1, 4).Draw(t, "chain-hundreds")
+		if rapid.IntRange(0, 15).Draw(t, "chain-at-the-size-bound") == 0 {
+			n = 1600 // about 45 KiB of identities
+		}
+		if n > MaxChain {
+			n = MaxChain
+		}
+		var b strings.Builder
+		switch rapid.SampledFrom([]string{"identities", "typedefs", "groupings", "containers"}).Draw(t, "chain-kind") {
+		case "identities":
+			b.WriteString("identity i0; ")
+			for i := 1; i <= n; i++ {
+				fmt.Fprintf(&b, "identity i%d{base i%d;} ", i, i-1)
+			}
+			b.WriteString("leaf l { type identityref { base i0; } } ")
+		case "typedefs":
+			b.WriteString("typedef t0 { type string; } ")
+			for i := 1; i <= n; i++ {
+				fmt.Fprintf(&b, "typedef t%d{type t%d;} ", i, i-1)
+			}
+			fmt.Fprintf(&b, "leaf l { type t%d; } ", n)
+		case "groupings":
+			// every grouping's expansion is cached on its own, so the cache is quadratic in the chain length by
+			// design of the library; the chain is kept where that stays small
+			if n > 300 {
+				n = 300
+			}
+			b.WriteString("grouping g0 { leaf x { type string; } } ")
+			for i := 1; i <= n; i++ {
+				fmt.Fprintf(&b, "grouping g%d{container c%d{uses g%d;}} ", i, i, i-1)
+			}
+			fmt.Fprintf(&b, "uses g%d; ", n)
+		default:
+			// the read-back of the harness walks '..' chains from every node: quadratic per node in the depth
+			if n > 300 {
+				n = 300
+			}
+			for i := 0; i < n; i++ {
+				fmt.Fprintf(&b, "container c%d{", i)
+			}
+			b.WriteString("leaf x { type string; }")
+			b.WriteString(strings.Repeat("}", n))
+		}
+		c.Files = append(c.Files, mod("m", b.String()))
+	case "enum-unions":
+		// unions of enumerations / bits that agree in all but one or two members
+		var b strings.Builder
+		kind, member, num := "enumeration", "enum", "value"
+		if rapid.Bool().Draw(t, "bits") {
+			kind, member, num = "bits", "bit", "position"
+		}
+		one := func(label string) string {
+			var s strings.Builder
+			fmt.Fprintf(&s, "type %s {", kind)
+			for _, nm := range rapid.Permutation([]string{"a", "b", "c"}).Draw(t, label+"-names")[:rapid.IntRange(1, 3).Draw(t, label+"-size")] {
+				if v := rapid.IntRange(-1, 2).Draw(t, label+"-value"); v >= 0 {
+					fmt.Fprintf(&s, " %s %s { %s %d; }", member, nm, num, v)
+				} else {
+					fmt.Fprintf(&s, " %s %s;", member, nm)
+				}
+			}
+			s.WriteString(" }")
+			return s.String()
+		}
+		fmt.Fprintf(&b, "typedef e1 { %s } typedef e2 { %s } leaf u1 { type union { %s %s } } leaf u2 { type union { type e1; type e2; %s } } ", one("t1"), one("t2"), one("m1"), one("m2"), one("m3"))
+		c.Files = append(c.Files, mod("m", wrap(b.String())))
+	case "header-mix":
+		// (sub)modules whose header statements are those of the other kind, missing, or both at once: several
+		// header faults in one text, of which always the same one must be reported
+		for i := 0; i < rapid.IntRange(1, 3).Draw(t, "header-files"); i++ {
+			kw := rapid.SampledFrom([]string{"module", "submodule"}).Draw(t, "header-kind")
+			var b strings.Builder
+			for _, st := range []string{"namespace \"urn:h\";", "prefix h;", "belongs-to m { prefix m; }", "yang-version 1.1;", "belongs-to other;"} {
+				if rapid.Bool().Draw(t, "header-stmt") {
+					b.WriteString(st + " ")
+				}
+			}
+			name := fmt.Sprintf("h%d", i)
+			c.Files = append(c.Files, File{Name: name + ".yang", Text: fmt.Sprintf("%s %s { %sleaf x { type string; } }", kw, name, b.String())})
+		}
 	default: // choice-case-oddities
 		c.Files = append(c.Files, mod("m", "choice c { case a { leaf a { type string; } } leaf a { type string; } case b { choice d { leaf a { type string; } } } default nosuch; } choice e { } choice f { case g { } } list l { key \"a b nosuch\"; leaf a { type string; } } list l2 { } container co { presence p; config maybe; } leaf m { type string; mandatory perhaps; } augment \"/m:c\" { case a { leaf z { type string; } } leaf a { type string; } } augment \"/m:c/m:a\" { leaf w { type string; } } augment \"/m:c/m:a/m:a\" { leaf w { type string; } }"))
 	}
